@@ -54,6 +54,9 @@ claimed = {
  "C10": dict(engine="enum+seqx", tech=ENUM+" + explicit-state search over the formatter's private state; parses run as two-thread programs under the scheduler", ref="§3/C10",
    text="A float ladder over every decimal exponent -324..308 (3 mantissas, both signs), a 12x12 complex grid, all 64-bit integer boundaries, every rune 0..0x2ff plus boundary/astral runes, all strings of length <=2 over 10 characters incl. invalid UTF-8, each in value and key positions; all seven kinds at sizes 0..40 and nested in each other to depth 3; chains up to the depth limit: FormatValue -> ParseSource -> independent structural comparison -> text fixpoint. Deeper-than-limit and self-containing values must terminate (fuel) with the elision mark. Every call history over successful, failing and cyclic values on one formatter/notation must give a fresh formatter's output.",
    note="canonical dynamic types for value equality; Queues within default capacity"),
+ "C11": dict(engine="enum+vsched", tech=ENUM+" (grammar derivations generated together with their meaning) + stateless model checking of the scanner/parser goroutine pair", ref="§3/C11",
+   text="Every literal alternative and boundary literal (~150) in nine syntactic positions, and all collections over representative literals (seven contexts, empty/inline/multi-line forms, values and associations with repeated keys, nested to depth 2/3) are parsed on the real code and compared with the expected value tree produced by the generator; literals without an exact representation admit a stated set of outcomes. Documents shorter and longer than the token queue are parsed under every schedule of the two goroutines up to a preemption bound with race detection: the result must not depend on the schedule.",
+   note="Set items are same-type literals; preemption bound 2 (1 for the 34-token document) quick, 3/2 thorough"),
  "C12": dict(engine="enum+vsched", tech=ENUM+"; every parse runs as a two-thread program (parser + scanner) under the cooperative scheduler", ref="§3/C12",
    text="All strings of <=3 lexemes over an 18-lexeme alphabet (<=4 when starting with '['; <=4/<=6 thorough), all strings of <=3 raw characters, every prefix, single-character deletion, insertion and substitution, context swap and illegal-character injection of a 12-document corpus (incl. documents with more than 16 tokens after every position) and a nesting ladder are parsed on the real scanner+parser; outcome must be a value or a textual diagnostic whose token header matches the source at the reported line/column; a scanner thread still parked after the call is a leak by scheduler fact; non-termination by fuel.",
    note="the fuzzing clause is replaced by the larger deterministic enumeration; nesting ladder stops at 233 (2000 thorough) levels"),
